@@ -234,13 +234,18 @@ func VerifC10_Merge(cs int) {
 	if cs/27%2 == 1 {
 		leftIn, rightIn = rightIn, leftIn
 	}
+	vC10Check(leftIn, rightIn, vC10Options(cs/9%3), vC10VariantNames[variant])
+}
+
+// vC10Check merges the two documents and checks accounting, facts, decodability and references.
+func vC10Check(leftIn, rightIn vC10Input, options *IndividualNodesCompareOptions, class string) {
 	left, err1 := NewDocumentFromString(leftIn.text())
 	right, err2 := NewDocumentFromString(rightIn.text())
 	VsAssume(err1 == nil && err2 == nil)
 	leftBefore, rightBefore := left.String(), right.String()
-	VsClassSet(vC10VariantNames[variant])
+	VsClassSet(class)
 
-	merged, err := MergeDocumentsAndIndividuals(left, right, EqualityMergeFunction, vC10Options(cs/9%3))
+	merged, err := MergeDocumentsAndIndividuals(left, right, EqualityMergeFunction, options)
 	VsReach("documents-merged")
 	VsAssert("merge-succeeds", err == nil && merged != nil)
 	if err != nil || merged == nil {
@@ -365,4 +370,57 @@ func VerifC10_Merge(cs int) {
 	}
 	VsAssert("every-family-role-still-points-to-the-same-person", same)
 	_ = strings.Join
+}
+
+var vC10IdentifierVariants = []string{"swapped-pointers-one-unique-id", "swapped-pointers-two-unique-ids", "renumbered-with-unique-ids", "shared-unique-id-different-names", "twins-one-unique-id"}
+
+// VerifC10_Identifiers: people who are matched by a unique identifier (_UID) while their pointers say
+// something else: a father and a son with the same name whose pointers are swapped in the copy (one or
+// both carry a _UID), a renumbered copy with identifiers, the same identifier under different names,
+// twins of whom one has an identifier. cs%5: variant, cs/5%2: documents swapped.
+func VerifC10_Identifiers(cs int) {
+	uid := func(c string) string { return "1 _UID " + strings.Repeat(c, 32) + "\n" }
+	mk := func(side string) vC10Input {
+		return vC10Input{
+			people: []vC10Person{
+				{ptr: "I1", name: "John /Smith/", birth: "3 Mar 1900", marker: side + "1", fams: "F1", extra: "1 OCCU Miner\n"},
+				{ptr: "I2", name: "John /Smith/", birth: "3 Mar 1901", marker: side + "2", famc: "F1", extra: "1 OCCU Baker\n"},
+			},
+			families: []vC10Family{{ptr: "F1", husb: "I1", chil: []string{"I2"}}},
+		}
+	}
+	l, r := mk("L"), mk("R")
+	swap := map[string]string{"I1": "I2", "I2": "I1"}
+	switch cs % 5 {
+	case 0:
+		l.people[1].extra += uid("B")
+		r.people[1].extra += uid("B")
+		r = vC10Rename(r, swap)
+	case 1:
+		l.people[0].extra += uid("A")
+		r.people[0].extra += uid("A")
+		l.people[1].extra += uid("B")
+		r.people[1].extra += uid("B")
+		r = vC10Rename(r, swap)
+	case 2:
+		l.people[0].extra += uid("A")
+		r.people[0].extra += uid("A")
+		l.people[1].extra += uid("B")
+		r.people[1].extra += uid("B")
+		r = vC10Rename(r, map[string]string{"I1": "P7", "I2": "P8", "F1": "F9"})
+	case 3:
+		l.people[1].extra += uid("B")
+		r.people[1].extra += uid("B")
+		r.people[1].name = "Zebedee /Quux/"
+		r.people[1].birth = "1 Apr 1701"
+	default:
+		// twins: same name and birth on both sides, only the second carries the identifier
+		l.people[0].birth, r.people[0].birth = "3 Mar 1901", "3 Mar 1901"
+		l.people[1].extra += uid("B")
+		r.people[1].extra += uid("B")
+	}
+	if cs/5%2 == 1 {
+		l, r = r, l
+	}
+	vC10Check(l, r, NewIndividualNodesCompareOptions(), vC10IdentifierVariants[cs%5])
 }
